@@ -86,7 +86,7 @@ fn vf_index_edges_and_closure() {
                     let got = edges_of(&ix, work);
                     if got != want {
                         bad += 1;
-                        if bad <= 3 { println!("VF-FAIL targets={:?} :: Index::new built edges {:?} but the configuration declares exactly {:?} (T depends on U iff U != T and U's directory contains T's directory or one of T's uses, whole components; grouping and cycle detection work on these edges) (C10) (C03) (C09) (C04)", targets, got, want); }
+                        if bad <= 3 { println!("VF-FAIL targets={:?} :: Index::new built edges {:?} but the configuration declares exactly {:?} (T depends on U iff U != T and U's directory contains T's directory or one of T's uses, whole components; grouping and cycle detection work on these edges) (C10) (C03) (C09) (C04) (C05) (C16)", targets, got, want); }
                         continue;
                     }
                 }
